@@ -865,14 +865,6 @@ class CSSStyleSheet(cssutils.stylesheets.StyleSheet):
             self._cssRules.insert(index, rule)
             self._updateVariables()
 
-        # margin rules belong into @page rules only
-        elif rule.type == rule.MARGIN_RULE:
-            self._log.error(
-                'CSSStylesheet: MarginRule is only allowed in a CSSPageRule.',
-                error=xml.dom.HierarchyRequestErr,
-            )
-            return
-
         # all other where order is not important
         else:
             if inOrder:
